@@ -68,6 +68,30 @@ def run(ctx: core.Ctx):
                          note="SPI = round(1000 * ndtri(p0 + (1 - p0) * gammainc(alpha, x / beta))) with the gamma MLE of the positive window values")
             if (real[~valid] != nd).any():
                 ctx.fail("gammastd_yxt", inp, real.tolist(), "nodata at nodata / negative cells")
+        # grouped kernel, int16 and float32 input, low-variability groups (large shape): per group it must give exactly what the
+        # ungrouped kernel gives on the group's sub-series (int16 -> float64 arithmetic in both)
+        from hdc.algo.ops.stats import gammastd_grp
+        for k in range(ctx.budget(12, 120)):
+            ng = rng.choice([1, 2, 3, 6])
+            per = rng.choice([12, 24, 36])
+            n = ng * per
+            groups = np.array([i % ng for i in range(n)], dtype="int16")
+            level = rng.choice([300.0, 2000.0, 9000.0])
+            cv = rng.choice([0.03, 0.05, 0.1, 0.5])
+            vals = np.clip(np.round([rng.gauss(level, level * cv) for _ in range(n)]), 1, 32000)
+            for dt in ("int16", "float32"):
+                xg = vals.astype(dt)
+                cal = np.array([[0, per]] * ng, dtype="int16")
+                out = gammastd_grp(xg, groups, float(ng), -9999.0, cal).astype(np.int64)
+                want = np.full(n, -9999, dtype=np.int64)
+                for g in range(ng):
+                    want[groups == g] = spi.real_spi(xg[groups == g], -9999.0, 0, per)
+                ctx.case(("grp", xg.tobytes(), ng, dt), sample=dict(kernel="gammastd_grp", dtype=dt, groups=ng, level=level, cv=cv))
+                ctx.count(f"grouped/{dt}")
+                if not np.array_equal(out, want):
+                    i = int(np.argmax(out != want))
+                    ctx.fail("gammastd_grp", dict(x=xg.tolist(), groups=int(ng), dtype=dt, cell=i, value=float(xg[i])), int(out[i]), int(want[i]),
+                             note="grouped SPI of a group = ungrouped SPI of its sub-series (same arithmetic precision for the same input dtype)")
     finally:
         ctx.notes["oracle_queries"] = dlg.queries
         dlg.close()
